@@ -31,7 +31,7 @@ compat.install_requests_shim()
 
 class StackRig:
     def __init__(self, tape, *, version=8, path="/dev/ttySIM", plan=None, K=1, sched=True, max_iters=400_000,
-                 max_vt=1e6, chunking=True, monitor=True):
+                 max_vt=1e6, chunking=True, monitor=True, fast_line=False):
         self.tape = tape
         self.loop = SimLoop(tape if sched else None, max_iters=max_iters, max_vt=max_vt)
         self.shim = TimeShim(self.loop)
@@ -40,6 +40,8 @@ class StackRig:
         self.path = path
         self.plan = plan if plan is not None else FaultPlan(tape, False)
         self.line = Line(self.loop, tape, self.plan, log=self.log, chunking=chunking, nodup_kinds=("rst", "rstack"))
+        if fast_line:  # fixed 1 ms latency, no latency draws (properties that are not about link timing)
+            self.line._latency = lambda: 0.001
         self.mon = WireMonitor(self.loop, payload_ok=None) if monitor else None
         self.ncp = Ncp(self.loop, tape, version, self.log)
         self.ncp_ash = R.NcpEndpoint(self.loop, tape, self._ncp_emit, upper=self.ncp, K=K, log=self.log)
